@@ -75,3 +75,43 @@ def ambiguous_ceils(y, h, ulps=2):
         else:
             options.append([c])
     return options
+
+
+def rounded_ceils(y, h):
+    """ceil of the correctly rounded double quotient y/h (one of the two
+    admissible readings at an ambiguous sample; IEEE division is correctly
+    rounded, so this is plain float arithmetic, not the code under test)."""
+    return [math.ceil(float(v) / float(h)) for v in y]
+
+
+def has_ambiguous_sample(y, h):
+    return any(len(o) > 1 for o in ambiguous_ceils(y, h))
+
+
+def crossings_from_ceils(x, y, h, ceils):
+    """Like crossings(), but with the per-sample ceilings given."""
+    out = []
+    hF = F(h)
+    for i in range(len(x) - 1):
+        ca, cb = ceils[i], ceils[i + 1]
+        if cb > ca:
+            ks = range(ca, cb)
+        else:
+            ks = reversed(range(cb, ca))
+        xa, xb, ya, yb = F(x[i]), F(x[i + 1]), F(y[i]), F(y[i + 1])
+        for k in ks:
+            if yb == ya:
+                continue
+            xc = xa + (k * hF - ya) / (yb - ya) * (xb - xa)
+            # an ambiguous sample sits within an ulp of the level: clamp
+            xc = min(max(xc, xa), xb)
+            out.append((k, xc, i))
+    return out
+
+
+def mean_crossings_rounded(x, y, h):
+    """{k: mean crossing} under the rounded-quotient reading."""
+    acc = {}
+    for k, xc, _ in crossings_from_ceils(x, y, h, rounded_ceils(y, h)):
+        acc.setdefault(k, []).append(xc)
+    return {k: sum(v) / len(v) for k, v in acc.items()}
